@@ -217,6 +217,40 @@ func runC17(cfg *config, res *monitor.Result) {
 				case uerr != nil && initialized:
 					report("unmarshal", "rejected-complete-message", "Unmarshal failed although every required field is present: "+uerr.Error(), inHex)
 				}
+				// other legal encodings of the same partial value: a message field split over two occurrences, several
+				// members of a oneof one after the other (the last one counts, whatever the earlier ones lack or supply).
+				// The verdict of the reference's strict parse of the very same bytes is the oracle.
+				for vi2 := range variantFamilies {
+					v := &variantFamilies[vi2]
+					if !v.splitMsg && !v.oneofMulti || v.unknown {
+						continue
+					}
+					enc := &venc{v: v, r: monitor.NewRand(cfg.seed, "c17-variant", t.pkg.GoPkg, string(t.md.FullName()), vi, si, v.family)}
+					vb := enc.message(d.ProtoReflect(), 0)
+					if enc.applied == 0 {
+						continue
+					}
+					vstrict := dynamicpb.NewMessage(t.md)
+					vrefErr := proto.UnmarshalOptions{Resolver: t.pkg.Resolver()}.Unmarshal(vb, vstrict)
+					if vrefErr != nil && !strings.Contains(vrefErr.Error(), "required") {
+						res.Inconc("reference rejects a generated variant for another reason than required fields: " + vrefErr.Error())
+						continue
+					}
+					evals++
+					classes[fmt.Sprintf("%s/%s/variant-%s/ref-accepts=%v", t.pkg.GoPkg, t.md.Name(), v.family, vrefErr == nil)]++
+					vdst := t.pkg.New(t.md.FullName()).(fastMsg)
+					var vuerr error
+					vpi := monitor.Try(func() { vuerr = vdst.Unmarshal(vb) })
+					vHex := map[string]any{"input_hex": monitor.Hex(vb), "variant": v.family}
+					switch {
+					case vpi != nil:
+						report("unmarshal-"+v.family, "panic:"+monitor.PanicClass(vpi.Value), "Unmarshal panicked: "+vpi.Value, vHex)
+					case vuerr == nil && vrefErr != nil:
+						report("unmarshal-"+v.family, "accepted-missing-required", fmt.Sprintf("Unmarshal accepted %d bytes (%s encoding) whose final value lacks required fields; the reference says: %v", len(vb), v.family, vrefErr), vHex)
+					case vuerr != nil && vrefErr == nil:
+						report("unmarshal-"+v.family, "rejected-complete-message", fmt.Sprintf("Unmarshal failed on a %s encoding whose final value has every required field: %v", v.family, vuerr), vHex)
+					}
+				}
 				// the same bytes decoded into a message that already holds a COMPLETE value: the verdict depends on the
 				// input alone (Unmarshal replaces the contents), also for the empty input
 				if fullGen, err := build(t, fullVal); err == nil {
